@@ -154,6 +154,7 @@ static struct {
         struct cat_io_interface io;
         int k;                       /* current service step */
         int sched_r, sched_w;        /* runtime switches: honour S.sr / S.sw */
+        int cut_done;                /* INPUT_CUT: the chunk boundary has been passed */
         unsigned in_pos;
         unsigned out_n;
         unsigned rc_n;
@@ -294,6 +295,14 @@ static int io_read(char *ch)
                 return 0;
         if (W.in_pos >= S.in_len)
                 return 0;
+#ifdef INPUT_CUT
+        /* the input arrives in two chunks: the first attempt to read byte INPUT_CUT is answered "not yet" - a refusal tied
+         * to a byte boundary, not to a service call (it also falls between two reads of a caller that reads in a loop) */
+        if (W.sched_r && !W.cut_done && W.in_pos == (unsigned)(INPUT_CUT)) {
+                W.cut_done = 1;
+                return 0;
+        }
+#endif
         *ch = (char)S.in[W.in_pos++];
         ON_READ_DELIVERED((unsigned char)*ch);
         return 1;
@@ -553,7 +562,7 @@ static void world_junk_idle(void)
 static void world_clear_run(void)
 {
         unsigned i;
-        W.k = 0; W.in_pos = 0; W.out_n = 0; W.rc_n = 0; W.hl_n = 0;
+        W.k = 0; W.in_pos = 0; W.out_n = 0; W.rc_n = 0; W.hl_n = 0; W.cut_done = 0;
         W.vw_n[0] = W.vw_n[1] = W.vr_n[0] = W.vr_n[1] = 0; W.vw_size[0] = W.vw_size[1] = 0;
         W.u_state = 0; W.u_crlf_lead = W.u_crlf_trail = 0; W.u_len = 0; W.units = 0; W.malformed = 0;
         W.last_unit_lead_crlf = W.last_unit_trail_crlf = 0; W.reads_attempted = W.writes_attempted = 0;
